@@ -37,8 +37,8 @@ def _param(rng, m, degree):
     """explicit method_parameter values that keep the method accurate on the integrand"""
     if m == "Gauss-Kronrod":
         return rng.choice([3, 5, 8])
-    if m == "Gauss-Legendre_2":
-        return rng.choice([n for n in (8, 12, 16, 40) if 2 * n - 1 >= degree] or [40])
+    if m == "Gauss-Legendre_2":   # odd and even numbers of evaluation points
+        return rng.choice([n for n in (3, 5, 7, 8, 9, 12, 13, 16, 25, 31, 40, 41) if 2 * n - 1 >= degree] or [41])
     return rng.choice([1, 7])      # ignored by the method
 
 
@@ -80,6 +80,45 @@ def _fam(rng, a, b):
     if k == 1:   # rational (Lorentzian, width comparable with the interval) plus offset
         return (1, rng.uniform(0.5, 6.0) / L ** 2, rng.uniform(lo, hi), rng.uniform(0.1, 1.0))
     return (2, rng.uniform(lo, hi), rng.uniform(0.25, 1.0) * L, rng.uniform(0.1, 1.0))
+
+
+_GLCACHE = {}
+
+
+def _gl_rule(n):
+    """exact n-point Gauss-Legendre rule on [-1,1] (mpmath, Newton on the Legendre recurrence) - an
+    independent reference used only to decide where an n-point rule CAN reach the method's accuracy"""
+    if n in _GLCACHE:
+        return _GLCACHE[n]
+    mp = mpmath.mp
+    xs, ws = [], []
+    for i in range(n):
+        z = mpmath.cos(mp.pi * (i + mpmath.mpf(3) / 4) / (n + mpmath.mpf(1) / 2))
+        for _ in range(100):
+            p1, p2 = mpmath.mpf(1), mpmath.mpf(0)
+            for j in range(n):
+                p1, p2 = ((2 * j + 1) * z * p1 - j * p2) / (j + 1), p1
+            pp = n * (z * p1 - p2) / (z * z - 1)
+            dz = p1 / pp
+            z -= dz
+            if abs(dz) < mpmath.mpf(10) ** -22:
+                break
+        xs.append(z); ws.append(2 / ((1 - z * z) * pp * pp))
+    _GLCACHE[n] = (xs, ws)
+    return xs, ws
+
+
+def _gl_reaches(f, a, b, n, frac=Fraction(1, 10)):
+    """does the exact n-point rule integrate family member f over [a,b] within frac * 1e-9 * integral |f| ?"""
+    if mpmath is None:
+        return False
+    xs, ws = _gl_rule(n)
+    g = _mpfam(f)
+    lo, hi = min(a, b), max(a, b)
+    mid, h = mpmath.mpf(lo + hi) / 2, mpmath.mpf(hi - lo) / 2
+    q = h * sum(w * g(mid + h * x) for x, w in zip(xs, ws))
+    I, A, S = _fam_ref(f, lo, hi)
+    return abs(q - I) <= float(frac) * 1e-9 * A
 
 
 def _famstr(f):
@@ -191,6 +230,48 @@ def generate(tier, seed, ctx):
                 for off in ((0.3759869620238562, 0.1) if thorough else (0.3759869620238562,)):
                     f = (1, w / L ** 2, a + pos * L, off)
                     add("c13.fam1 Adaptive-Simpson 0 %s %s %s" % (hx(a), hx(b), _famstr(f)), cls="bump", orient=0, pc=False)
+    # ---- Gauss-Legendre_2 with explicit ODD numbers of evaluation points (the central node of an odd rule) -----
+    m = "Gauss-Legendre_2"
+    for n in (3, 5, 7, 25, 31, 41):
+        deg = min(2 * n - 1, 12)
+        for orient in (0, 1):
+            a, b = _pair(rng, -5, 5, orient)
+            ts = [(c, i, 0, 0) for c, i, _, _ in _rterms(rng, 1, [deg, 0, 0], 3)] + [(1.0, deg, 0, 0), (2.0, 0, 0, 0)]
+            add("c13.int1 %s %d %s %s %s" % (m, n, hx(a), hx(b), _terms(ts)), cls="poly-odd", orient=orient, pc=n)
+        orient = rng.randrange(4)
+        (x1, x2), (y1, y2) = _disjoint_pairs(rng, 2, orient)
+        d2 = min(2 * n - 1, 4)
+        ts = _rterms(rng, 2, [d2, d2, 0]) + [(1.0, min(d2, 1), min(d2, 2), 0), (3.0, 0, 0, 0)]
+        add("c13.int2 %s %d %s %s %s %s 1 %s" % (m, n, hx(x1), hx(x2), hx(y1), hx(y2), _terms(ts)), cls="poly-odd", orient=orient, pc=n)
+        if n in (3, 7, 31):
+            orient = rng.randrange(8)
+            (x1, x2), (y1, y2), (z1, z2) = _disjoint_pairs(rng, 3, orient)
+            ts = _rterms(rng, 3, [d2, d2, d2]) + [(1.0, 1, 2, min(d2, 3)), (3.0, 0, 0, 0)]
+            add("c13.int3 %s %d %s %s %s %s %s %s 1 %s" % (m, n, hx(x1), hx(x2), hx(y1), hx(y2), hx(z1), hx(z2), _terms(ts)),
+                cls="poly-odd", orient=orient, pc=n)
+            r1, r2 = _pair(rng, 0.2, 3.0, orient & 1)
+            c1, c2 = _pair(rng, -0.95, 0.95, (orient >> 1) & 1)
+            f1, f2 = _pair(rng, -3.0, 3.0, (orient >> 2) & 1)
+            ts = _rterms(rng, 3, [min(d2, 2), d2, d2], 2) + [(1.0, 1, 1, 1), (2.0, 0, 0, 0)]
+            add("c13.sph %s %d %s %s %s %s %s %s 1 %s" % (m, n, hx(r1), hx(r2), hx(c1), hx(c2), hx(f1), hx(f2), _terms(ts)),
+                cls="sub-odd", orient=orient, pc=n)
+    # smooth families: an odd n is used where the EXACT n-point rule reaches a tenth of the method's accuracy
+    for t in range(8 * rep):
+        orient = t % 2
+        a, b = _pair(rng, -5, 5, orient)
+        f = _fam(rng, a, b)
+        ok = [n for n in (5, 7, 9, 13, 25, 31, 41) if _gl_reaches(f, a, b, n)]
+        if not ok:
+            continue
+        n = ok[0] if t % 2 else rng.choice(ok)     # the smallest sufficient odd rule every other time
+        add("c13.fam1 %s %d %s %s %s" % (m, n, hx(a), hx(b), _famstr(f)), cls="fam%d-odd" % f[0], orient=orient, pc=n)
+        if t % 4 == 0:
+            (x1, x2), (y1, y2) = _disjoint_pairs(rng, 2, rng.randrange(4))
+            g, h = _fam(rng, x1, x2), _fam(rng, y1, y2)
+            ok2 = [k for k in (25, 31, 41) if _gl_reaches(g, x1, x2, k) and _gl_reaches(h, y1, y2, k)]
+            if ok2:
+                add("c13.fam2 %s %d %s %s %s %s 1 %s %s" % (m, ok2[0], hx(x1), hx(x2), hx(y1), hx(y2), _famstr(g), _famstr(h)),
+                    cls="fam-odd", orient=0, pc=ok2[0])
     # ---- Monte-Carlo front ends --------------------------------------------------------------------
     for m in MC:
         for t in range(2 * rep):
